@@ -489,6 +489,8 @@ def gen_run_jobs(ctx, n):
         elem_num = p.get('elem_num', rng.choice([1, 2, 3, 5, 8, 1000]))
         ndrop = p.get('drop', rng.choice([0, 0, max(1, n_cells // 5)]))
         drop = sorted(rng.sample(range(n_cells), min(ndrop, n_cells - 1))) if ndrop else []
+        if drop and 'drop' in p and 0 not in drop:
+            drop[0] = 0          # a corner cell: its corner node becomes unreferenced
         far = p.get('far', rng.random() < 0.2)
         t = [rng.randint(-5, 5) for _ in range(3)]
         if far and p.get('coord_dtype', 'float64') == 'float64':
@@ -704,6 +706,7 @@ def with_second(rjobs, rres):
 def eval_runs(ctx, rjobs, rres):
     lines = [HEADER]
     per_run = []
+    big = []
     for job, r in zip(rjobs, rres):
         if r.get('second') is not None:
             s2 = r['second']
@@ -739,16 +742,25 @@ def eval_runs(ctx, rjobs, rres):
                           what='MeshCompressor raised')
             continue
         nm, L, checks = run_defs(job, r)
-        lines += L
-        lines.append(f'Goal True. idtac "@@ {nm}". Abort.')
-        lines.append('Eval vm_compute in map fst (filter (fun c => negb (snd c)) ' +
-                     lib.coq_list([f'({cz(i)}, {e})' for i, (_, e) in enumerate(checks)]) + ').')
+        block = L + [f'Goal True. idtac "@@ {nm}". Abort.',
+                     'Eval vm_compute in map fst (filter (fun c => negb (snd c)) ' +
+                     lib.coq_list([f'({cz(i)}, {e})' for i, (_, e) in enumerate(checks)]) + ').']
+        if len(r['in_polys']) > 400:
+            big.append((nm, block))          # evaluated in a file of its own
+        else:
+            lines += block
         per_run.append((job, r, nm, checks, descr))
     rc, out, err = ctx.coq_eval('CasesRuns', '\n'.join(lines) + '\n', timeout=900)
     parts = lib.parse_marked(out) if rc == 0 else {}
+    for nm, block in big:
+        rcb, outb, errb = ctx.coq_eval('CasesRunBig_' + nm, '\n'.join([HEADER] + block) + '\n', timeout=1500)
+        if rcb == 0:
+            parts.update(lib.parse_marked(outb))
+        else:
+            err = (err or '') + (errb or outb)[-300:]
     summary = []
     for job, r, nm, checks, descr in per_run:
-        bad = failing(parts.get(nm, '')) if rc == 0 else None
+        bad = failing(parts[nm]) if nm in parts else None
         if bad is None:
             ctx.violation('correspondence', {'jobs': {'runs': [strip_x(job)]}}, 'CasesRuns.v evaluates',
                           (err or out)[-600:], 'verified-oracle test', found_input=False,
@@ -828,6 +840,10 @@ def eval_transfers(ctx, rjobs, rres):
             continue
         rid = job['id']
         mats = {}
+        referenced = {v for pl in r['in_polys'] for f in pl for v in f}
+        unref = {'unreferenced_nodes': True} if len(referenced) < len(r['in_pos']) else {}
+        if unref:
+            ctx.count('run_with_unreferenced_nodes')
         for knn, d in r['mats'].items():
             for where in ('nodal', 'elemental'):
                 nmA = f'A_{rid}_{knn}_{where}'
@@ -841,7 +857,8 @@ def eval_transfers(ctx, rjobs, rres):
                 cases.append((len(cases),
                               f'mat_ok {N} {nmA} && rows_nonempty {nmA} && cols_nonempty {N} {nmA} && '
                               f'mat_ok {M} {nmA}_T',
-                              {'type': 'matrix', 'run': rid, 'knn': knn, 'where': where}))
+                              {'type': 'matrix', 'run': rid, 'knn': knn, 'where': where,
+                               'unref': unref if where == 'nodal' else {}}))
         for t in r['transfers']:
             nmA, M, N = mats[(str(t['knn']), t['where'])]
             A = nmA if t['dir'] == 'compress' else nmA + '_T'
@@ -850,6 +867,7 @@ def eval_transfers(ctx, rjobs, rres):
             meta = {'type': 'transfer', 'run': rid, 'tid': t['tid'], 'func': func, 'kind': t['kind'],
                     'shape': t['shape'], 'knn': t['knn'], 'xmode': t['xmode'],
                     'dtype': t.get('dtype', 'float64')}
+            meta['unref'] = unref if t['where'] == 'nodal' else {}
             ctx.count('transfer_dtype:' + meta['dtype'])
             if t.get('source_unchanged') is False:
                 sym.append((meta, 'source field modified', ''))
@@ -964,8 +982,9 @@ def eval_transfers(ctx, rjobs, rres):
                 ctx.violation('impl-violation', case_of(meta), 'every row and column of the conversion '
                               'matrix is non-empty', 'false', 'hypotheses of C20_mean_preserves_const / '
                               'C20_sum_conserves_total on the real matrix',
-                              signature={'check': 'matrix', 'where': meta['where'], 'knn': meta['knn'],
-                                         'run': meta['run']},
+                              signature=dict({'check': 'matrix', 'where': meta['where']}, **meta['unref'])
+                              if meta['unref'] else {'check': 'matrix', 'where': meta['where'],
+                                                     'knn': meta['knn'], 'run': meta['run']},
                               what='conversion matrix has an empty row or column')
             elif ty == 'corr':
                 ctx.corr['disagreements'] += 1
@@ -973,7 +992,7 @@ def eval_transfers(ctx, rjobs, rres):
                               'differs by more than 2^-30', 'correspondence of the transfer formulas',
                               signature=dict({'check': 'transfer-corr', 'kind': meta['kind'],
                                               'func': meta['func'], 'shape': meta['shape'],
-                                              'dtype': meta['dtype']}, **meta['sq']),
+                                              'dtype': meta['dtype']}, **meta['sq'], **meta['unref']),
                               what='transferred data differ from the model formula')
             else:
                 ctx.violation('impl-violation', case_of(meta),
@@ -982,7 +1001,7 @@ def eval_transfers(ctx, rjobs, rres):
                               'C20_sum_conserves_total',
                               signature=dict({'check': 'transfer', 'kind': meta['kind'], 'func': meta['func'],
                                               'shape': meta['shape'], 'symptom': ty + ' not kept',
-                                              'dtype': meta['dtype']}, **meta['sq']),
+                                              'dtype': meta['dtype']}, **meta['sq'], **meta['unref']),
                               what='transfer does not keep the ' + ty)
     for meta, symptom, msg in sym:
         ctx.case(['transfer', meta], nontrivial=True)
@@ -990,8 +1009,9 @@ def eval_transfers(ctx, rjobs, rres):
                       'a result of the shape of the input data on the target mesh',
                       symptom + (': ' + msg if msg else ''),
                       'C20_sum_conserves_total / C20_mean_preserves_const',
-                      signature={'check': 'transfer', 'kind': meta['kind'], 'shape': meta['shape'],
-                                 'symptom': symptom, 'func': meta['func'], 'dtype': meta['dtype']},
+                      signature=dict({'check': 'transfer', 'kind': meta['kind'], 'shape': meta['shape'],
+                                      'symptom': symptom, 'func': meta['func'], 'dtype': meta['dtype']},
+                                     **meta['unref']),
                       what='transfer of %s data with kind=%s: %s' % (meta['shape'], meta['kind'], symptom))
     ctx.corr['cases'] += n_corr
     ctx.corr['transfer_cases'] = n_corr
